@@ -148,6 +148,24 @@ def check_scool(case, ctx: Ctx):
                 check("gc" in b.columns and np.array_equal(b["gc"].to_numpy(), base_extra["gc"]), f"cell {nm!r}: extra bin column lost")
             if case["metadata"]:
                 check(clr.info["metadata"] == case["metadata"], "cell metadata differs")
+        # history: a bin column is stored in ONE cell afterwards (what balancing a cell does); per-cell columns stay per cell
+        if len(cells) >= 2:
+            first = sorted(cells)[0]
+            c0 = cooler.Cooler(f"{path}::/cells/{first}")
+            before = {nm: list(cooler.Cooler(f"{path}::/cells/{nm}").bins()[:].columns) for nm in cells}
+
+            def store():
+                with c0.open("r+") as grp:
+                    grp["bins"].create_dataset("late", data=np.arange(n, dtype=float))
+
+            call(f"store a bin column in cell {first!r}", store)
+            for nm in cells:
+                colsnow = list(cooler.Cooler(f"{path}::/cells/{nm}").bins()[:].columns)
+                want_cols = before[nm] + (["late"] if nm == first else [])
+                check(sorted(colsnow) == sorted(want_cols),
+                      lambda: f"after storing a bin column in cell {first!r} only, cell {nm!r} has bin columns {colsnow}, expected {want_cols}")
+            with h5py.File(path, "r") as f:
+                check("late" not in f["bins"], f"a bin column stored in cell {first!r} appeared in the file-level bin table")
     finally:
         ctx.clean(path)
     distinct = {str(v) for v in cells.values() if v}
